@@ -30,7 +30,7 @@ class C05(LBCheck):
           'non-trivial = a join or leave was delivered; distinct as C03')
   REQUIRED_CLASSES = ('heap', 'aperture', 'join-duplicate', 'leave-unknown', 'rejoin', 'notify-during-loading',
                       'rejoin-while-draining', 'removal', 'init-retry', 'saturation-probe', 'full-stack', 'tuple-endpoints', 'close-raises-on-leave', 'duplicates-in-initial-list',
-                      'named-endpoint', 'zk-backed', 'zk-backed:named-endpoint', 'zk-backed:restart', 'zk-backed:registrant-without-the-named-endpoint', 'look-alike-endpoints',
+                      'named-endpoint', 'zk-backed', 'zk-backed:named-endpoint', 'zk-backed:restart', 'zk-backed:path-recreated', 'zk-backed:registrant-without-the-named-endpoint', 'look-alike-endpoints',
                       'yielding-close', 'yielding-close:closed-inside-completion', 'yielding-close:root-leaves-in-window',
                       'yielding-close:idle-leaves-in-window', 'yielding-close:rejoin-in-window', 'thrift', 'mux')
   ASSUMPTIONS = ('eligible endpoints are read from the balancer\'s heap and idle set (observe_at: internal)',)
@@ -182,6 +182,18 @@ class C05(LBCheck):
           gevent.sleep(rng.random() * zk.latency[1])
         counter[0] += 1
         zk.create_node('%s/member_%010d' % (path, counter[0]), data_)
+      elif k < 0.72 and path in zk.nodes:
+        # a blip: the watched path and everything below it goes away and is back, with new registrations,
+        # before (or just after) the client has seen it missing
+        classes.add('zk-backed:path-recreated')
+        zk.delete_node(path, recursive=True)
+        if lat_cls != 'zero' and rng.random() < 0.6:
+          gevent.sleep(rng.random() * zk.latency[1] * rng.choice([0.3, 1.0, 2.5]))
+        zk.create_node(path)
+        for _i in range(rng.choice([0, 1, 2, 3])):
+          add_member()
+          if lat_cls != 'zero' and rng.random() < 0.3:
+            gevent.sleep(rng.random() * zk.latency[1])
       elif k < 0.9:
         r = w.dispatch(timeout=None)
         stats['dispatches'] += 1
